@@ -224,3 +224,47 @@ macro_rules! for_prim_pooled {
         }
     };
 }
+
+// Recording num-bigint boundary for decoder harnesses whose targets are candid::Int / Nat:
+// the mathematical value handed to num-bigint is logged; which constructor is used is not asserted.
+pub static mut BN_LOG: [i128; 4] = [0; 4];
+pub static mut BN_LOG_N: usize = 0;
+fn bn_log(v: i128) {
+    unsafe {
+        if BN_LOG_N < 4 {
+            BN_LOG[BN_LOG_N] = v;
+        }
+        BN_LOG_N += 1;
+    }
+}
+pub fn rec_biguint_from_u64(v: u64) -> num_bigint::BigUint {
+    bn_log(v as i128);
+    num_bigint::BigUint::default()
+}
+pub fn rec_bigint_from_u64(v: u64) -> num_bigint::BigInt {
+    bn_log(v as i128);
+    num_bigint::BigInt::default()
+}
+pub fn rec_bigint_from_i64(v: i64) -> num_bigint::BigInt {
+    bn_log(v as i128);
+    num_bigint::BigInt::default()
+}
+/// de_harness! with the recording boundary for small values and the value-irrelevant one for the
+/// (unreachable for 1-byte numbers, but syntactically present) big path.
+macro_rules! de_harness_bnrec {
+    ($(#[$m:meta])* fn $name:ident() $body:block) => {
+        de_harness! {
+            #[kani::stub(num_bigint::BigUint::from_radix_le, crate::de::verif_kani::common::bn_from_radix_le)]
+            #[kani::stub(num_bigint::BigUint::to_bytes_le, crate::de::verif_kani::common::bn_to_bytes_le)]
+            #[kani::stub(num_bigint::BigInt::to_signed_bytes_le, crate::de::verif_kani::common::bn_to_signed_bytes_le)]
+            #[kani::stub(<num_bigint::BigUint as std::convert::From<u64>>::from, crate::de::verif_kani::common::rec_biguint_from_u64)]
+            #[kani::stub(<num_bigint::BigInt as std::convert::From<u64>>::from, crate::de::verif_kani::common::rec_bigint_from_u64)]
+            #[kani::stub(<num_bigint::BigInt as std::convert::From<i64>>::from, crate::de::verif_kani::common::rec_bigint_from_i64)]
+            #[kani::stub(<num_bigint::BigInt as std::convert::From<num_bigint::BigUint>>::from, crate::de::verif_kani::common::bn_int_from_biguint)]
+            #[kani::stub(<num_bigint::BigInt as std::ops::SubAssign<num_bigint::BigInt>>::sub_assign, crate::de::verif_kani::common::bn_sub_assign)]
+            #[kani::stub(<num_bigint::BigInt as std::ops::Shl<usize>>::shl, crate::de::verif_kani::common::bn_shl)]
+            $(#[$m])*
+            fn $name() $body
+        }
+    };
+}
